@@ -43,7 +43,7 @@ def finish(ctx, prop, viol, known, other, runner, coverage, assumptions, level="
     for r in viol:
         c = byid.get(r.get("id"))
         rp = ctx.write_replay([prop, r.get("why"), c["src"] if c else "", r.get("i")],
-                              {"property": prop, "rejection": r, "source": c["src"] if c else None,
+                              {"property": prop, "rejection": r, "source": c["src"] if c else None, "stmts": c["stmts"] if c else None, "job": c["job"] if c else None,
                                "statement": render.stmt(c["stmts"][r["i"] - 1]) if c and 0 < r.get("i", 0) <= len(c["stmts"]) else None,
                                "how": "assemble `source` with gosk; compare the bytes of `statement` with the rejection record"})
         if shown < 20:
